@@ -1,10 +1,684 @@
+//! C13: every Zoned value is internally consistent with its time zone.
+//!
+//! E2: explicit-state breadth-first search over operation histories with
+//! `stateright`. Every transition EXECUTES THE REAL jiff OPERATION on a real
+//! `Zoned` (rebuilt from the canonical state with `Zoned::new(instant, zone)`),
+//! and the invariant is evaluated on every produced value BEFORE it is
+//! canonicalised to `(instant, zone)`:
+//!
+//!   I1  z.offset()   == z.time_zone().to_offset(z.timestamp())
+//!   I2  z.datetime() == z.offset().to_datetime(z.timestamp())
+//!   I3  the zone is the expected one (with_time_zone / in_tz -> the target
+//!       zone, every other operation -> unchanged)
+//!   I4  with_time_zone / in_tz keep the instant exactly
+//!   I5  ==, cmp and Hash depend on the instant only (compared with
+//!       `Zoned::new(same instant, another zone of the run)`)
+//!
+//! A violated invariant is a property violation (recorded through `Report`)
+//! and that value is NOT expanded. Canonicalisation is sound because, when
+//! I1-I3 hold, the produced value is field-for-field equal to
+//! `Zoned::new(instant, zone)` (DESIGN.md section 3 / C13).
+//!
+//! State = (instant ns, zone index, depth). The depth is part of the state on
+//! purpose: stateright's multi-threaded BFS is not level-synchronous, so its
+//! own `target_max_depth` cut-off would make the explored set depend on thread
+//! timing (a value first reached through a longer path would never be
+//! expanded). With the depth in the state the model itself is finite (no
+//! actions at depth = bound), the checker runs to exhaustion, and the explored
+//! set - hence `unique_state_count()` - is the same on every run.
+//!
+//! Oracle note: I1/I2 deliberately use jiff's own `to_offset`/`to_datetime`
+//! (C03 decides whether those are right); C13 decides whether the cached
+//! components of a `Zoned` can ever disagree with them.
+
 #[path = "../../vf/src/guard.rs"]
 #[allow(dead_code)]
 mod guard;
 #[path = "../../vf/src/report.rs"]
 #[allow(dead_code)]
 mod report;
+
+use guard::{guard, panic_sig};
+use jiff::civil::Weekday;
+use jiff::tz::{Disambiguation, Offset, OffsetConflict, TimeZone};
+use jiff::{RoundMode, Span, Timestamp, Unit, Zoned, ZonedRound};
+use refmodel::{cal, tz as rtz};
+use report::Report;
+use serde_json::json;
+use stateright::{Checker, Model, Property};
+use std::collections::HashMap;
+use std::hash::{Hash, Hasher};
+use std::sync::atomic::{AtomicU64, Ordering::Relaxed};
+use std::sync::{Arc, Mutex};
+
+const NS: i128 = 1_000_000_000;
+const SYS: &str = "/usr/share/zoneinfo";
+
+#[derive(Clone, Debug, PartialEq, Eq, Hash)]
+struct St {
+    ns: i128,
+    zone: u8,
+    depth: u8,
+}
+
+#[derive(Clone, Debug)]
+enum Op {
+    Add(Span),
+    Sub(Span),
+    Round(Unit, i64, RoundMode),
+    WithHour(i8),
+    WithMinute(i8),
+    WithDay(i8),
+    WithMonth(i8),
+    WithNanosecond(i16),
+    WithSubsec(i32),
+    /// with().hour(h).disambiguation(d)
+    WithHourDisamb(i8, Disambiguation),
+    /// with().offset(current + delta seconds).offset_conflict(c)
+    WithOffset(i32, OffsetConflict),
+    StartOfDay,
+    EndOfDay,
+    Tomorrow,
+    Yesterday,
+    FirstOfMonth,
+    LastOfMonth,
+    FirstOfYear,
+    LastOfYear,
+    NthWeekday(i32, Weekday),
+    WithTimeZone(u8),
+    InTz(u8),
+    /// z.datetime().to_zoned(tz)
+    DateTimeToZoned,
+    /// tz.to_ambiguous_zoned(z.datetime()).disambiguate(d)
+    Ambiguous(Disambiguation),
+    /// z.to_string().parse::<Zoned>()
+    PrintParse,
+    /// z.timestamp().to_zoned(tz)
+    TimestampToZoned,
+    /// r = epoch_in_zone.until((largest, z)); epoch_in_zone.checked_add(r)
+    UntilAdd(Unit),
+}
+
+struct Act {
+    name: String,
+    op: Op,
+}
+
+struct Zn {
+    name: String,
+    tz: TimeZone,
+    /// name usable with `in_tz`, if any
+    iana: Option<String>,
+}
+
+const SHARDS: usize = 64;
+
+struct Shared {
+    r: Arc<Report>,
+    zones: Vec<Zn>,
+    acts: Vec<Act>,
+    bound: u8,
+    transitions: AtomicU64,
+    no_successor: AtomicU64,
+    produced: AtomicU64,
+    violating_values: AtomicU64,
+    /// (instant, zone) -> minimal depth at which it was produced
+    values: Vec<Mutex<HashMap<(i128, u8), u8>>>,
+    per_action_ok: Vec<AtomicU64>,
+    per_action_err: Vec<AtomicU64>,
+}
+
+impl Shared {
+    fn record_value(&self, ns: i128, zone: u8, depth: u8) {
+        let mut h = std::collections::hash_map::DefaultHasher::new();
+        (ns, zone).hash(&mut h);
+        let mut m = self.values[(h.finish() as usize) % SHARDS].lock().unwrap();
+        let e = m.entry((ns, zone)).or_insert(depth);
+        if depth < *e {
+            *e = depth;
+        }
+    }
+
+    fn case(&self, ns: i128, zone: u8, act: &Act) -> String {
+        format!("zone={} ts={} action={}", self.zones[zone as usize].name, ns, act.name)
+    }
+
+    /// Execute the real operation. Ok(None) = the operation returned Err
+    /// (no successor); Ok(Some((value, expected zone, keeps instant))).
+    fn exec(&self, z: &Zoned, zone: u8, op: &Op) -> Result<Option<(Zoned, u8, bool)>, String> {
+        let tz = &self.zones[zone as usize].tz;
+        let same = |v: Result<Zoned, jiff::Error>| v.ok().map(|v| (v, zone, false));
+        guard(|| match op {
+            Op::Add(s) => same(z.checked_add(*s)),
+            Op::Sub(s) => same(z.checked_sub(*s)),
+            Op::Round(u, inc, m) => same(z.round(ZonedRound::new().smallest(*u).increment(*inc).mode(*m))),
+            Op::WithHour(v) => same(z.with().hour(*v).build()),
+            Op::WithMinute(v) => same(z.with().minute(*v).build()),
+            Op::WithDay(v) => same(z.with().day(*v).build()),
+            Op::WithMonth(v) => same(z.with().month(*v).build()),
+            Op::WithNanosecond(v) => same(z.with().nanosecond(*v).build()),
+            Op::WithSubsec(v) => same(z.with().subsec_nanosecond(*v).build()),
+            Op::WithHourDisamb(h, d) => same(z.with().hour(*h).disambiguation(*d).build()),
+            Op::WithOffset(delta, c) => match Offset::from_seconds(z.offset().seconds() + delta) {
+                Ok(o) => same(z.with().offset(o).offset_conflict(*c).build()),
+                Err(_) => None,
+            },
+            Op::StartOfDay => same(z.start_of_day()),
+            Op::EndOfDay => same(z.end_of_day()),
+            Op::Tomorrow => same(z.tomorrow()),
+            Op::Yesterday => same(z.yesterday()),
+            Op::FirstOfMonth => same(z.first_of_month()),
+            Op::LastOfMonth => same(z.last_of_month()),
+            Op::FirstOfYear => same(z.first_of_year()),
+            Op::LastOfYear => same(z.last_of_year()),
+            Op::NthWeekday(n, w) => same(z.nth_weekday(*n, *w)),
+            Op::WithTimeZone(t) => Some((z.with_time_zone(self.zones[*t as usize].tz.clone()), *t, true)),
+            Op::InTz(t) => z.in_tz(self.zones[*t as usize].iana.as_deref().unwrap()).ok().map(|v| (v, *t, true)),
+            Op::DateTimeToZoned => same(z.datetime().to_zoned(tz.clone())),
+            Op::Ambiguous(d) => same(tz.to_ambiguous_zoned(z.datetime()).disambiguate(*d)),
+            Op::PrintParse => same(z.to_string().parse::<Zoned>()),
+            Op::TimestampToZoned => Some((z.timestamp().to_zoned(tz.clone()), zone, false)),
+            Op::UntilAdd(u) => {
+                let base = Zoned::new(Timestamp::UNIX_EPOCH, tz.clone());
+                match base.until((*u, z)) {
+                    Ok(span) => same(base.checked_add(span)),
+                    Err(_) => None,
+                }
+            }
+        })
+    }
+
+    /// The invariant on a produced value. Returns false if it is violated.
+    fn invariant(&self, v: &Zoned, from_ns: i128, from_zone: u8, act: &Act, want_zone: u8, keeps_instant: bool) -> bool {
+        let sec = "bfs";
+        let case = || self.case(from_ns, from_zone, act);
+        let res = guard(|| {
+            let mut bad: Vec<(&'static str, String)> = vec![];
+            let ts = v.timestamp();
+            let want_off = v.time_zone().to_offset(ts);
+            if v.offset() != want_off {
+                bad.push(("offset-mismatch", format!("offset() = {:?} but time_zone().to_offset(timestamp()) = {:?}; value {:?}", v.offset(), want_off, v)));
+            }
+            let want_dt = v.offset().to_datetime(ts);
+            if v.datetime() != want_dt {
+                bad.push(("datetime-mismatch", format!("datetime() = {} but offset().to_datetime(timestamp()) = {}; offset {:?} ts {}", v.datetime(), want_dt, v.offset(), ts.as_nanosecond())));
+            }
+            if v.time_zone() != &self.zones[want_zone as usize].tz {
+                bad.push(("zone-unexpected", format!("zone is {:?}, expected {}", v.time_zone(), self.zones[want_zone as usize].name)));
+            }
+            if keeps_instant && ts.as_nanosecond() != from_ns {
+                bad.push(("instant-changed", format!("instant {} -> {}", from_ns, ts.as_nanosecond())));
+            }
+            // Eq / Ord / Hash depend on the instant only
+            let other = (want_zone as usize + 1) % self.zones.len();
+            let w = Zoned::new(ts, self.zones[other].tz.clone());
+            let hash = |z: &Zoned| {
+                let mut h = std::collections::hash_map::DefaultHasher::new();
+                z.hash(&mut h);
+                h.finish()
+            };
+            if !(v == &w) || v.cmp(&w) != std::cmp::Ordering::Equal || v.partial_cmp(&w) != Some(std::cmp::Ordering::Equal) || hash(v) != hash(&w) {
+                bad.push((
+                    "eq-ord-hash",
+                    format!("same instant in {}: == {} cmp {:?} hash equal {}", self.zones[other].name, v == &w, v.cmp(&w), hash(v) == hash(&w)),
+                ));
+            }
+            // field-for-field equal to the canonical reconstruction (what the
+            // canonicalisation argument relies on)
+            let canon = Zoned::new(ts, self.zones[want_zone as usize].tz.clone());
+            if bad.is_empty() && (canon.offset() != v.offset() || canon.datetime() != v.datetime()) {
+                bad.push(("differs-from-Zoned::new", format!("Zoned::new gives {:?}, value is {:?}", canon, v)));
+            }
+            bad
+        });
+        match res {
+            Err(p) => {
+                self.r.viol(sec, &format!("{}/invariant-{}", act.name, panic_sig(&p)), case(), p);
+                false
+            }
+            Ok(bad) => {
+                for (class, detail) in &bad {
+                    self.r.viol(sec, &format!("{}/{}", act.name, class), case(), detail.clone());
+                }
+                bad.is_empty()
+            }
+        }
+    }
+
+    /// One transition: rebuild the value, run the operation, check the
+    /// invariant, canonicalise.
+    fn step(&self, ns: i128, zone: u8, depth: u8, ai: usize) -> Option<St> {
+        let act = &self.acts[ai];
+        let tz = &self.zones[zone as usize].tz;
+        let z = Zoned::new(Timestamp::from_nanosecond(ns).expect("state instant in range"), tz.clone());
+        self.transitions.fetch_add(1, Relaxed);
+        match self.exec(&z, zone, &act.op) {
+            Err(p) => {
+                self.r.viol("bfs", &format!("{}/{}", act.name, panic_sig(&p)), self.case(ns, zone, act), p);
+                self.no_successor.fetch_add(1, Relaxed);
+                None
+            }
+            Ok(None) => {
+                self.no_successor.fetch_add(1, Relaxed);
+                self.per_action_err[ai].fetch_add(1, Relaxed);
+                None
+            }
+            Ok(Some((v, want_zone, keeps))) => {
+                self.produced.fetch_add(1, Relaxed);
+                self.per_action_ok[ai].fetch_add(1, Relaxed);
+                if !self.invariant(&v, ns, zone, act, want_zone, keeps) {
+                    self.violating_values.fetch_add(1, Relaxed);
+                    return None;
+                }
+                let out = v.timestamp().as_nanosecond();
+                self.record_value(out, want_zone, depth + 1);
+                Some(St { ns: out, zone: want_zone, depth: depth + 1 })
+            }
+        }
+    }
+}
+
+struct ZModel {
+    sh: Arc<Shared>,
+    init: Vec<St>,
+}
+
+impl Model for ZModel {
+    type State = St;
+    type Action = u16;
+
+    fn init_states(&self) -> Vec<St> {
+        self.init.clone()
+    }
+
+    fn actions(&self, s: &St, out: &mut Vec<u16>) {
+        if s.depth < self.sh.bound {
+            out.extend(0..self.sh.acts.len() as u16);
+        }
+    }
+
+    fn next_state(&self, s: &St, a: u16) -> Option<St> {
+        self.sh.step(s.ns, s.zone, s.depth, a as usize)
+    }
+
+    fn properties(&self) -> Vec<Property<Self>> {
+        // Violations are recorded through `Report` from inside `next_state`
+        // (the invariant is on the produced value, not on the canonical
+        // state). This property never fails, so that the checker explores the
+        // whole bounded space instead of stopping at the first discovery.
+        vec![Property::always("explore the whole bounded space", |_, _| true)]
+    }
+}
+
+fn build_actions(zones: &[Zn], core_only: bool) -> Vec<Act> {
+    let mut v: Vec<Act> = vec![];
+    let mut push = |name: String, op: Op| v.push(Act { name, op });
+    let sp = Span::new();
+    let spans: Vec<(&str, Span)> = vec![
+        ("1ns", sp.nanoseconds(1)),
+        ("1h", sp.hours(1)),
+        ("25h", sp.hours(25)),
+        ("1d", sp.days(1)),
+        ("1mo", sp.months(1)),
+        ("1y", sp.years(1)),
+        ("1mo1d1h", sp.months(1).days(1).hours(1)),
+    ];
+    for (n, s) in &spans {
+        if core_only && !["1ns", "1h", "1d", "1mo"].contains(n) {
+            continue;
+        }
+        push(format!("checked_add({})", n), Op::Add(*s));
+        push(format!("checked_sub({})", n), Op::Sub(*s));
+    }
+    let rounds: Vec<(&str, Unit, i64)> = vec![("minute", Unit::Minute, 1), ("hour", Unit::Hour, 1), ("6hours", Unit::Hour, 6), ("day", Unit::Day, 1)];
+    let modes = [("HalfExpand", RoundMode::HalfExpand), ("Floor", RoundMode::Floor), ("Ceil", RoundMode::Ceil)];
+    for (n, u, inc) in &rounds {
+        for (mn, m) in &modes {
+            if core_only && !((*n == "hour" || *n == "day") && *mn == "HalfExpand") {
+                continue;
+            }
+            push(format!("round({},{})", n, mn), Op::Round(*u, *inc, *m));
+        }
+    }
+    if core_only {
+        push("with.hour(2)".into(), Op::WithHour(2));
+        push("with.day(31)".into(), Op::WithDay(31));
+    } else {
+        for h in [0i8, 2, 23] {
+            push(format!("with.hour({})", h), Op::WithHour(h));
+        }
+        push("with.minute(30)".into(), Op::WithMinute(30));
+        for d in [1i8, 31] {
+            push(format!("with.day({})", d), Op::WithDay(d));
+        }
+        for m in [3i8, 11] {
+            push(format!("with.month({})", m), Op::WithMonth(m));
+        }
+        push("with.nanosecond(0)".into(), Op::WithNanosecond(0));
+        push("with.subsec_nanosecond(999999999)".into(), Op::WithSubsec(999_999_999));
+        for (n, d) in [("earlier", Disambiguation::Earlier), ("later", Disambiguation::Later), ("reject", Disambiguation::Reject)] {
+            push(format!("with.hour(1).disambiguation({})", n), Op::WithHourDisamb(1, d));
+        }
+        for (n, c) in [
+            ("always_offset", OffsetConflict::AlwaysOffset),
+            ("always_time_zone", OffsetConflict::AlwaysTimeZone),
+            ("prefer_offset", OffsetConflict::PreferOffset),
+            ("reject", OffsetConflict::Reject),
+        ] {
+            push(format!("with.offset(current+1h).offset_conflict({})", n), Op::WithOffset(3600, c));
+        }
+    }
+    push("start_of_day".into(), Op::StartOfDay);
+    push("end_of_day".into(), Op::EndOfDay);
+    push("tomorrow".into(), Op::Tomorrow);
+    push("yesterday".into(), Op::Yesterday);
+    if !core_only {
+        push("first_of_month".into(), Op::FirstOfMonth);
+        push("last_of_month".into(), Op::LastOfMonth);
+        push("first_of_year".into(), Op::FirstOfYear);
+        push("last_of_year".into(), Op::LastOfYear);
+        push("nth_weekday(1,Sunday)".into(), Op::NthWeekday(1, Weekday::Sunday));
+        push("nth_weekday(-1,Sunday)".into(), Op::NthWeekday(-1, Weekday::Sunday));
+    }
+    // zone changes: the action "to zone t" is offered in every state; moving
+    // to the zone one is already in is an identity transition.
+    for (t, z) in zones.iter().enumerate() {
+        if core_only && t >= 3 {
+            break;
+        }
+        push(format!("with_time_zone({})", z.name), Op::WithTimeZone(t as u8));
+        if z.iana.is_some() && !core_only {
+            push(format!("in_tz({})", z.name), Op::InTz(t as u8));
+        }
+    }
+    push("datetime().to_zoned(tz)".into(), Op::DateTimeToZoned);
+    for (n, d) in [
+        ("compatible", Disambiguation::Compatible),
+        ("earlier", Disambiguation::Earlier),
+        ("later", Disambiguation::Later),
+        ("reject", Disambiguation::Reject),
+    ] {
+        if core_only && (n == "compatible" || n == "reject") {
+            continue;
+        }
+        push(format!("tz.to_ambiguous_zoned(datetime()).{}", n), Op::Ambiguous(d));
+    }
+    push("to_string().parse()".into(), Op::PrintParse);
+    if !core_only {
+        push("timestamp().to_zoned(tz)".into(), Op::TimestampToZoned);
+        push("epoch.until(z)+checked_add(largest=hour)".into(), Op::UntilAdd(Unit::Hour));
+        push("epoch.until(z)+checked_add(largest=year)".into(), Op::UntilAdd(Unit::Year));
+    }
+    v
+}
+
+fn load_zones(names: &[&str]) -> Vec<Zn> {
+    let mut v = vec![];
+    for n in names {
+        let tz = jiff::tz::db().get(n).unwrap_or_else(|e| panic!("zone {} not available from the system database: {}", n, e));
+        v.push(Zn { name: n.to_string(), tz, iana: Some(n.to_string()) });
+    }
+    v.push(Zn { name: "fixed(+05:30)".into(), tz: TimeZone::fixed(Offset::from_seconds(19_800).unwrap()), iana: None });
+    v
+}
+
+/// Initial instants of a zone: epoch, `k` transitions within 1900..2040 each at
+/// -1 ns, 0, +1 h, and the range limits moved inward by three days.
+fn init_instants(name: &str, k: usize) -> Vec<i128> {
+    let ts_min = Timestamp::MIN.as_nanosecond();
+    let ts_max = Timestamp::MAX.as_nanosecond();
+    let mut v: Vec<i128> = vec![0, ts_min + 3 * 86_400 * NS, ts_max - 3 * 86_400 * NS];
+    if let Ok(bytes) = std::fs::read(format!("{}/{}", SYS, name)) {
+        if let Ok(m) = rtz::zone_from_tzif(&bytes) {
+            let lo = cal::days_from_civil(1900, 1, 1) * 86_400;
+            let hi = cal::days_from_civil(2040, 1, 1) * 86_400;
+            let ch: Vec<i64> = m.changing().into_iter().map(|i| m.pieces[i].start).filter(|s| *s >= lo && *s < hi).collect();
+            // k transitions spread evenly over the list, always including the
+            // first and the last two
+            let mut idx: Vec<usize> = vec![];
+            if !ch.is_empty() {
+                let n = ch.len();
+                for j in 0..k.min(n) {
+                    let i = if k <= 1 { 0 } else { j * (n - 1) / (k.min(n) - 1).max(1) };
+                    if !idx.contains(&i) {
+                        idx.push(i);
+                    }
+                }
+                if n >= 2 && !idx.contains(&(n - 2)) {
+                    idx.push(n - 2);
+                }
+            }
+            for i in idx {
+                let b = ch[i] as i128 * NS;
+                v.extend([b - 1, b, b + 3_600 * NS]);
+            }
+        }
+    }
+    v
+}
+
+struct RunStats {
+    unique_states: u64,
+    unique_values: u64,
+    per_depth: Vec<u64>,
+    max_depth: usize,
+    wall: f64,
+}
+
+fn run_bfs(r: &Arc<Report>, label: &str, zone_names: &[&str], k: usize, bound: u8, core_only: bool, cap_states: usize, timeout_s: u64) -> RunStats {
+    let zones = load_zones(zone_names);
+    let acts = build_actions(&zones, core_only);
+    let nacts = acts.len();
+    let mut init: Vec<St> = vec![];
+    for (zi, z) in zones.iter().enumerate() {
+        for ns in init_instants(&z.name, k) {
+            init.push(St { ns, zone: zi as u8, depth: 0 });
+        }
+    }
+    let sh = Arc::new(Shared {
+        r: r.clone(),
+        zones,
+        acts,
+        bound,
+        transitions: AtomicU64::new(0),
+        no_successor: AtomicU64::new(0),
+        produced: AtomicU64::new(0),
+        violating_values: AtomicU64::new(0),
+        values: (0..SHARDS).map(|_| Mutex::new(HashMap::new())).collect(),
+        per_action_ok: (0..nacts).map(|_| AtomicU64::new(0)).collect(),
+        per_action_err: (0..nacts).map(|_| AtomicU64::new(0)).collect(),
+    });
+    // the initial values are themselves checked (constructed with Zoned::new)
+    let init_act = Act { name: "Zoned::new".into(), op: Op::TimestampToZoned };
+    for s in &init {
+        let z = Zoned::new(Timestamp::from_nanosecond(s.ns).unwrap(), sh.zones[s.zone as usize].tz.clone());
+        sh.invariant(&z, s.ns, s.zone, &init_act, s.zone, true);
+        sh.record_value(s.ns, s.zone, 0);
+    }
+    let n_init = init.len();
+    let t0 = std::time::Instant::now();
+    let model = ZModel { sh: sh.clone(), init };
+    let threads = std::thread::available_parallelism().map(|n| n.get()).unwrap_or(16).min(16);
+    let checker = model
+        .checker()
+        .threads(threads)
+        .target_state_count(cap_states)
+        .timeout(std::time::Duration::from_secs(timeout_s))
+        .spawn_bfs()
+        .join();
+    let wall = t0.elapsed().as_secs_f64();
+    let unique_states = checker.unique_state_count() as u64;
+    let max_depth = checker.max_depth();
+    let discoveries = checker.discoveries().len();
+    drop(checker);
+
+    let sh = Arc::try_unwrap(sh).ok().expect("checker released the model");
+    let mut per_depth = vec![0u64; bound as usize + 1];
+    let mut unique_values = 0u64;
+    for m in &sh.values {
+        for (_, d) in m.lock().unwrap().iter() {
+            per_depth[*d as usize] += 1;
+            unique_values += 1;
+        }
+    }
+    let tr = sh.transitions.load(Relaxed);
+    r.add_states(unique_states);
+    r.add_transitions(tr);
+    r.add_validated(sh.produced.load(Relaxed));
+    r.count(&format!("{}:initial_states", label), n_init as u64);
+    r.count(&format!("{}:zones", label), sh.zones.len() as u64);
+    r.count(&format!("{}:actions", label), nacts as u64);
+    r.count(&format!("{}:depth_bound", label), bound as u64);
+    r.count(&format!("{}:unique_states(instant,zone,depth)", label), unique_states);
+    r.count(&format!("{}:unique_values(instant,zone)", label), unique_values);
+    r.count(&format!("{}:transitions", label), tr);
+    r.count(&format!("{}:operations_returning_err(no successor)", label), sh.no_successor.load(Relaxed));
+    r.count(&format!("{}:values_invariant_checked", label), sh.produced.load(Relaxed));
+    r.count(&format!("{}:values_violating(not expanded)", label), sh.violating_values.load(Relaxed));
+    r.count(&format!("{}:checker_max_depth(stateright counts the initial level as 1)", label), max_depth as u64);
+    for (d, n) in per_depth.iter().enumerate() {
+        r.count(&format!("{}:new_values_first_reached_at_depth_{}", label, d), *n);
+    }
+    let never_ok: Vec<&str> = sh.acts.iter().enumerate().filter(|(i, _)| sh.per_action_ok[*i].load(Relaxed) == 0).map(|(_, a)| a.name.as_str()).collect();
+    r.count(&format!("{}:actions_that_never_succeeded", label), never_ok.len() as u64);
+    if !never_ok.is_empty() {
+        r.note(format!("{}: actions that never produced a value: {}", label, never_ok.join(", ")));
+    }
+    let never_err = sh.acts.iter().enumerate().filter(|(i, _)| sh.per_action_err[*i].load(Relaxed) == 0).count();
+    r.count(&format!("{}:actions_that_never_failed", label), never_err as u64);
+    r.require(never_ok.is_empty(), "every action produced a value somewhere");
+    r.require(discoveries == 0, "the exploration property has no discovery");
+    let capped_states = unique_states as usize >= cap_states;
+    let capped_time = wall >= timeout_s as f64;
+    if capped_states {
+        r.cap(format!("{}: state cap {} reached - the bounded space was NOT exhausted", label, cap_states));
+    }
+    if capped_time {
+        r.cap(format!("{}: timeout {} s reached - the bounded space was NOT exhausted", label, timeout_s));
+    }
+    let exhausted = !capped_states && !capped_time;
+    r.count(&format!("{}:frontier_exhausted_within_bound", label), exhausted as u64);
+    let fix = exhausted && per_depth[bound as usize] == 0;
+    r.count(&format!("{}:fix_point_reached", label), fix as u64);
+    r.sample(json!({
+        "run": label, "zones": sh.zones.iter().map(|z| z.name.clone()).collect::<Vec<_>>(),
+        "actions": sh.acts.iter().map(|a| a.name.clone()).collect::<Vec<_>>(),
+        "depth_bound": bound, "initial_states": n_init, "unique_states": unique_states, "unique_values": unique_values,
+        "transitions": tr, "new_values_per_depth": per_depth, "wall_s": wall, "exhausted": exhausted,
+    }));
+    eprintln!(
+        "[C13] {}: init {} zones {} actions {} bound {} -> states {} values {} transitions {} in {:.1}s (exhausted: {})",
+        label, n_init, sh.zones.len(), nacts, bound, unique_states, unique_values, tr, wall, exhausted
+    );
+    RunStats { unique_states, unique_values, per_depth, max_depth, wall }
+}
+
+const QUICK_ZONES: &[&str] =
+    &["America/New_York", "Europe/London", "Australia/Lord_Howe", "Africa/Monrovia", "Pacific/Apia", "America/Sao_Paulo", "UTC"];
+const REP: &[&str] = &[
+    "America/New_York",
+    "Europe/London",
+    "Europe/Dublin",
+    "Europe/Berlin",
+    "Australia/Lord_Howe",
+    "Pacific/Apia",
+    "Pacific/Kiritimati",
+    "Africa/Monrovia",
+    "Asia/Kathmandu",
+    "America/St_Johns",
+    "Antarctica/Troll",
+    "Africa/Casablanca",
+    "America/Sao_Paulo",
+    "Asia/Tehran",
+    "America/Caracas",
+    "Pacific/Honolulu",
+    "Australia/Sydney",
+    "UTC",
+];
+
+/// Replay of one transition: `zone=<name> ts=<ns> action=<name>`.
+fn replay(r: Arc<Report>, case: &str) -> ! {
+    let get = |key: &str| -> Option<String> {
+        let i = case.find(key)? + key.len();
+        let rest = &case[i..];
+        Some(match key {
+            "action=" => rest.to_string(),
+            _ => rest.split(' ').next().unwrap_or("").to_string(),
+        })
+    };
+    let (Some(zone), Some(ts), Some(action)) = (get("zone="), get("ts="), get("action=")) else {
+        eprintln!("cannot parse case {:?}", case);
+        std::process::exit(2);
+    };
+    let thorough = r.thorough();
+    let zones = load_zones(if thorough { REP } else { QUICK_ZONES });
+    let acts = build_actions(&zones, false);
+    let nacts = acts.len();
+    let sh = Shared {
+        r: r.clone(),
+        zones,
+        acts,
+        bound: 1,
+        transitions: AtomicU64::new(0),
+        no_successor: AtomicU64::new(0),
+        produced: AtomicU64::new(0),
+        violating_values: AtomicU64::new(0),
+        values: (0..SHARDS).map(|_| Mutex::new(HashMap::new())).collect(),
+        per_action_ok: (0..nacts).map(|_| AtomicU64::new(0)).collect(),
+        per_action_err: (0..nacts).map(|_| AtomicU64::new(0)).collect(),
+    };
+    let zi = sh.zones.iter().position(|z| z.name == zone);
+    let ai = sh.acts.iter().position(|a| a.name == action);
+    let ns: Option<i128> = ts.parse().ok();
+    match (zi, ai, ns) {
+        (Some(zi), Some(ai), Some(ns)) => {
+            let z = Zoned::new(Timestamp::from_nanosecond(ns).unwrap(), sh.zones[zi].tz.clone());
+            println!("state: {:?}", z);
+            match sh.exec(&z, zi as u8, &sh.acts[ai].op) {
+                Ok(Some((v, _, _))) => println!("{} -> {:?}\n  timestamp {} offset {:?} datetime {} | to_offset {:?} to_datetime {}", action, v, v.timestamp().as_nanosecond(), v.offset(), v.datetime(), v.time_zone().to_offset(v.timestamp()), v.offset().to_datetime(v.timestamp())),
+                Ok(None) => println!("{} -> Err (no successor)", action),
+                Err(p) => println!("{} -> PANIC {}", action, p),
+            }
+            sh.step(ns, zi as u8, 0, ai);
+        }
+        _ => {
+            eprintln!("unknown zone/action/instant in case {:?} (tier {})", case, if thorough { "thorough" } else { "quick" });
+        }
+    }
+    drop(sh);
+    finish(r)
+}
+
+fn finish(r: Arc<Report>) -> ! {
+    match Arc::try_unwrap(r) {
+        Ok(r) => r.finish(),
+        Err(_) => panic!("report still shared"),
+    }
+}
+
 fn main() {
-    let r = report::Report::from_args("C13");
-    r.finish();
+    let r = Arc::new(Report::from_args("C13"));
+    if let Some(case) = r.only_case.clone() {
+        replay(r, &case);
+    }
+    if r.quick() {
+        // depth 3, seven named zones + a fixed offset, full action set
+        r.section("bfs", || {
+            let st = run_bfs(&r, "quick", QUICK_ZONES, 2, 3, false, 120_000_000, 100);
+            r.require(st.unique_values > 10_000 && st.per_depth[3] > 0, "the search reached depth 3 with > 10^4 distinct values");
+            let _ = (st.unique_states, st.max_depth, st.wall);
+        });
+    } else {
+        // (a) wide: every representative zone, full action set, depth 3
+        r.section("bfs-wide", || {
+            let a = run_bfs(&r, "wide", REP, 3, 3, false, 400_000_000, 1500);
+            r.require(a.per_depth[3] > 0, "the wide search reached its depth bound");
+        });
+        // (b) deep: the quick zones, core action subset, depth 5
+        r.section("bfs-deep", || {
+            let b = run_bfs(&r, "deep", QUICK_ZONES, 2, 5, true, 400_000_000, 1500);
+            r.require(b.per_depth[5] > 0, "the deep search reached its depth bound");
+        });
+    }
+    finish(r)
 }
